@@ -14,8 +14,10 @@ import Ibx.Model.StyleFilter
   in which local variables are replaced by their definitions (parameters are $1, $2, …), unexported helpers are
   inlined, functions used as values are F1, F2, …, loops are L1, L2, … (one iteration; @1 … are the variables carried
   round, #M is the result of effect M), constructed objects are o1, o2, …, map-literal tables are T1, …, string
-  building (a + b, append, Sprintf("%s"), conversions) is a concatenation `++`, and the conditions are re-expanded
-  into a decision tree in a fixed order.  Renaming locals / unexported helpers, extracting helpers, if/else <-> switch,
+  building (a + b, append, Sprintf("%s"), conversions) is a concatenation `++`, a search for one ASCII byte is
+  strings.IndexByte / LastIndexByte however it is spelled (Index with a one-character string, IndexRune), indexing a
+  `map[string]bool` set literal is a set test `k in {…}`, a loop `for v := E; C; v = E` is the loop that evaluates E and
+  tests C at the top of every iteration, and the conditions are re-expanded into a decision tree in a fixed order.  Renaming locals / unexported helpers, extracting helpers, if/else <-> switch,
   early returns, flag variables, reordered cases, comments and formatting do not change a row; a changed call,
   literal, operator, order of effects or condition does.  If the source changes one of them these
   obligations stop checking — e.g. a property added to `allowedProperties` (then decide with the rule below
@@ -92,12 +94,16 @@ theorem wrapMatch_tie :
 /-- the replacer's arguments, in order (= priority at one position) -/
 theorem replacer_tie :
     Gen.San.replacerArgs = [[13, 10], TextHtml.br, [13], TextHtml.br, [10], TextHtml.br] := by decide
-/-- WrapURL with linkable inlined, row for row `TextHtml.wrapURL` / `linkable` / `anchor`; T1 is the scheme table -/
+/-- WrapURL with linkable inlined, row for row `TextHtml.wrapURL` / `linkable` / `anchor`.  The scheme test is printed
+    as a SET test on strings.ToLower of the text in front of the ':' (`in {…}` / `notin {…}`): a `map[string]bool` set
+    literal indexed with that value and a `switch` over it with `return true` cases are the same multi-way test to the
+    extractor, so the rows do not say which of the two the code uses; the members are pinned here and, as bytes against
+    the model's `TextHtml.schemes`, in `linkable_tie` -/
 theorem wrap_sem_tie : Gen.San.wrapURLSem = [
       "strings.IndexAny($1, \":/?#&\") < 0 => - -> return \"<a href=\\\"\" ++ strings.ReplaceAll($1, \"&amp;\", \"&\") ++ \"\\\" target=\\\"_blank\\\">\" ++ $1 ++ \"</a>\"",
       "strings.IndexAny($1, \":/?#&\") >= 0 && $1[strings.IndexAny($1, \":/?#&\")] == \"&\" => - -> return $1",
-      "strings.IndexAny($1, \":/?#&\") >= 0 && $1[strings.IndexAny($1, \":/?#&\")] == \":\" && T1[strings.ToLower($1[:strings.IndexAny($1, \":/?#&\")])] => - -> return \"<a href=\\\"\" ++ strings.ReplaceAll($1, \"&amp;\", \"&\") ++ \"\\\" target=\\\"_blank\\\">\" ++ $1 ++ \"</a>\"",
-      "strings.IndexAny($1, \":/?#&\") >= 0 && $1[strings.IndexAny($1, \":/?#&\")] == \":\" && !T1[strings.ToLower($1[:strings.IndexAny($1, \":/?#&\")])] => - -> return $1",
+      "strings.IndexAny($1, \":/?#&\") >= 0 && $1[strings.IndexAny($1, \":/?#&\")] == \":\" && strings.ToLower($1[:strings.IndexAny($1, \":/?#&\")]) in {\"ftp\", \"http\", \"https\", \"mailto\"} => - -> return \"<a href=\\\"\" ++ strings.ReplaceAll($1, \"&amp;\", \"&\") ++ \"\\\" target=\\\"_blank\\\">\" ++ $1 ++ \"</a>\"",
+      "strings.IndexAny($1, \":/?#&\") >= 0 && $1[strings.IndexAny($1, \":/?#&\")] == \":\" && strings.ToLower($1[:strings.IndexAny($1, \":/?#&\")]) notin {\"ftp\", \"http\", \"https\", \"mailto\"} => - -> return $1",
       "strings.IndexAny($1, \":/?#&\") >= 0 && $1[strings.IndexAny($1, \":/?#&\")] notin {\"&\", \":\"} => - -> return \"<a href=\\\"\" ++ strings.ReplaceAll($1, \"&amp;\", \"&\") ++ \"\\\" target=\\\"_blank\\\">\" ++ $1 ++ \"</a>\"",
       "import strings = strings"] := rfl
 theorem wrap_tie :
